@@ -5,7 +5,7 @@ run the named property's check against it (MDPAX_SRC), and require that it FAILS
 import json, os, shutil, subprocess, sys, tempfile, re, glob
 from concurrent.futures import ThreadPoolExecutor
 ROOT = os.path.dirname(os.path.dirname(os.path.abspath(__file__)))
-muts = json.load(open(os.path.join(ROOT, "contracts", "mutations.json")))
+muts = json.load(open(os.path.join(ROOT, "contracts", os.environ.get("MUT_TABLE", "mutations.json"))))
 sel = set(sys.argv[1:])
 if sel: muts = [m for m in muts if m["id"] in sel]
 def run(m):
